@@ -345,6 +345,17 @@ func (ba *boolAnalysis) fail(format string, a ...interface{}) {
 
 // operandOf resolves a list value to an operand index.
 func (ba *boolAnalysis) operandOf(v ssa.Value) (int, bool) {
+	// a conversion between a list and a named type of the same list (`queryVerdict(list)`) is the
+	// same list
+	for i := 0; i < 4; i++ {
+		if ct, isCT := v.(*ssa.ChangeType); isCT {
+			if _, known := ba.operand[v]; !known {
+				v = ct.X
+				continue
+			}
+		}
+		break
+	}
 	if k, ok := ba.operand[v]; ok {
 		return k, true
 	}
@@ -1544,6 +1555,9 @@ func (lc *lclassCtx) classify(fn *ssa.Function, list *ssa.Parameter, v ssa.Value
 			c |= lc.classify(fn, list, e, seen)
 		}
 		return c
+	case *ssa.ChangeType:
+		// a conversion to or from a named type of the same list
+		return lc.classify(fn, list, x.X, seen)
 	case *ssa.Slice:
 		if al, ok := x.X.(*ssa.Alloc); ok && x.Low == nil {
 			if at, ok := al.Type().(*types.Pointer).Elem().(*types.Array); ok {
